@@ -70,7 +70,12 @@ def probe_pairs():
     """Ordered probe sequence around byte/small-int boundaries of BOTH n and the unit count
     (255/256/257) and beyond every n the pinned suite uses; ascending unit count, so that cells
     planned for few units are cached before the many-unit problems are asked for."""
-    return [[n, s] for s in PROBE_S for n in PROBE_N if s <= n + 1]
+    return [[n, s] for s in PROBE_S for n in PROBE_N if s <= n + 1] + MANY_UNITS
+
+
+# more than a third of the default recursion limit in units (and fewer than ~490, beyond which the
+# unchanged library itself exhausts the recursion limit - DESIGN section 6)
+MANY_UNITS = [[335, 334], [340, 336], [340, 339], [350, 1000], [400, 360]]
 
 
 def seq_probe(payload):
